@@ -1,22 +1,5 @@
 //! E2: bounded-exhaustive input enumeration against independent references.
-mod c09;
-mod c11;
-mod c13;
-mod c18;
-
-use std::future::Future;
-use std::pin::pin;
-use std::task::{Context, Poll, Waker};
-
-/// Drives a future that never waits (in-memory readers / writers) to completion.
-pub fn now<F: Future>(f: F) -> F::Output {
-    let mut f = pin!(f);
-    let mut cx = Context::from_waker(Waker::noop());
-    match f.as_mut().poll(&mut cx) {
-        Poll::Ready(v) => v,
-        Poll::Pending => common::machinery("in-memory future returned Pending"),
-    }
-}
+use enumk::{c09, c11, c13, c18};
 
 fn main() {
     let cli = common::cli();
